@@ -30,6 +30,7 @@ unsafe impl RawMutex for Spin {
     };
     type GuardMarker = GuardSend;
     fn lock(&self) {
+        crate::conc::lock_window();
         while self
             .locked
             .compare_exchange_weak(false, true, Ordering::Acquire, Ordering::Relaxed)
@@ -45,6 +46,11 @@ unsafe impl RawMutex for Spin {
     }
     unsafe fn unlock(&self) {
         self.locked.store(false, Ordering::Release);
+        // a user supplied lock may be arbitrarily slow: in threaded runs a random delay is injected
+        // right after every internal critical section of the crate ends (and before the next begins).
+        // This widens *every* window between two critical sections, including windows that a change
+        // to the crate newly creates, without needing a hook point there.
+        crate::conc::lock_window();
     }
 }
 
